@@ -32,7 +32,7 @@ DEPENDS = {
 }
 
 def units(tier):
-    return [lib("logging/log_entry.cpp"), lib("logging/async_file_appender.cpp")]
+    return [lib("logging/log_entry.cpp"), lib("logging/async_file_appender.cpp"), lib("logging/async_log_stream.cpp")]
 
 
 def nin(a, b, c):
@@ -219,6 +219,34 @@ def run(ctx):
         rets = [n for n in ig.ev_nodes() if n.ev["e"] == "ret"]
         ctx.ob("C20.R2j", "LogStreamBuffer::end", bool(syncs) and all(ig.dominated_by(r_, syncs) for r_ in rets), bufs["end"].loc,
                "end() must bring the byte count up to date before it hands the entry out")
+    # ---------------------------------------------------------------- R2k an entry's pages come from the allocator its appender frees them to (after seed C20-6)
+    # a LogEntry records only its size: writer and discard() rebuild the page list with the appender's *current* allocator
+    # and page size, and set_page_allocator() may replace it between two entries. Every begin() of the buffer in the
+    # asynchronous stream is therefore preceded, in the same per-entry step, by binding the buffer to what the appender
+    # hands out now.
+    n2k = 0
+    for fn in fb.find(pred=lambda f: f.record == "babylon::AsyncLogStream" and f.has_cfg() and not f.lambda_ and f.kind not in ("ctor", "dtor")):
+        ig = IG(fn, inline=lambda fr, ev, callee: callee.record == "babylon::AsyncLogStream" and not callee.lambda_)
+        live = ig.live_nodes()
+        begins = [n for n in ig.ev_nodes() if n.id in live and n.ev["e"] == "call" and n.ev.get("name") == "begin" and
+                  (ig.tu.fns.get(n.ev.get("cid")) is not None and ig.tu.fns.get(n.ev.get("cid")).record == BUF)]
+        if not begins:
+            continue
+        binds = []
+        for n in ig.ev_nodes():
+            if n.id in live and n.ev["e"] == "call" and n.ev.get("name") == "set_page_allocator" and n.ev.get("args"):
+                srcs = [ig.ev_of(o) for o in ig.origins(ig.rarg(n, 0))]
+                if srcs and all(sn is not None and sn.ev.get("name") == "page_allocator" and
+                                re.search(r"AsyncFileAppender::page_allocator$", sn.ev.get("callee", "") or "") for sn in srcs):
+                    binds.append(n)
+        for b in begins:
+            n2k += 1
+            ctx.ob("C20.R2k", "%s@%s" % (L.short(fn), b.line), bool(binds) and ig.dominated_by(b, binds), b.where,
+                   "the stream starts an entry without binding its buffer to the appender's current page allocator first: after "
+                   "AsyncFileAppender::set_page_allocator() an existing stream keeps allocating from the old allocator while the writer "
+                   "rebuilds the page list with the new one's page size and frees the pages into it",
+                   site="AsyncLogStream::%s@allocator-bound-per-entry" % fn.name)
+    ctx.floor("C20.R2k", n2k, 1, "entry starts of the asynchronous stream")
     # ---------------------------------------------------------------- R4d a destination's index is its position
     for fn in fb.find(pred=lambda f: f.record == APP and f.name == "destination" and f.has_cfg()):
         ig = IG(fn, inline=nin)
